@@ -83,13 +83,32 @@ def lit(h, t):
     return "0x%s#%d" % (h, 32 if t == "i32" else 64)
 
 
+GROUPS = ["I32Arith", "I32Bits", "I32Cmp", "I64Arith", "I64Bits", "I64Cmp", "Misc"]
+
+
+def group_of(row):
+    t, _, op = row.key.partition(".")
+    if t in ("i32", "i64") and op in ("add", "sub", "mul", "div_s", "div_u", "rem_s", "rem_u"):
+        return t.upper() + "Arith"
+    if t in ("i32", "i64") and op in ("and", "or", "xor", "shl", "shr_s", "shr_u", "rotl", "rotr"):
+        return t.upper() + "Bits"
+    if t in ("i32", "i64") and (op in RELK or op in R.IUN or op == "eqz"):
+        return t.upper() + "Cmp"
+    return "Misc"
+
+
+def modules():
+    return ["WaVerif.Props.C03Rows" + g for g in GROUPS]
+
+
 def main():
     src = open(os.path.join(V, "lean/WaVerif/Gen/C03Templates.lean")).read()
     modelled = set(re.findall(r"^def f_(\w+) : CFunc", src, re.M))
-    out = ["import WaVerif.Model.C03Spec", "import WaVerif.Gen.C03Templates", "import WaVerif.Lemmas.C03Tac",
-           "set_option linter.unusedSimpArgs false",
-           "/-! One theorem group per regenerated C template (statement fixed by the instruction name). Written by tools/gen_c03_props.py. -/",
-           "namespace WaVerif.C03.Rows", "open WaVerif WaVerif.Wasm WaVerif.C03 WaVerif.Gen.C03", ""]
+    head = ["import WaVerif.Model.C03Spec", "import WaVerif.Gen.C03Templates", "import WaVerif.Lemmas.C03Tac",
+            "set_option linter.unusedSimpArgs false",
+            "/-! One theorem group per regenerated C template (statement fixed by the instruction name). Written by tools/gen_c03_props.py. -/",
+            "namespace WaVerif.C03.Rows", "open WaVerif WaVerif.Wasm WaVerif.C03 WaVerif.Gen.C03", ""]
+    outs = dict((g, list(head)) for g in GROUPS)
     wit = {}
     n_ok = n_false = 0
     for row in R.all_rows():
@@ -98,13 +117,13 @@ def main():
         st = statement(row)
         if st is None:
             continue
+        out = outs[group_of(row)]
         ar, body = st
         nm = row.name
         if row.key in FALSE_ROWS and ar == 2:
             guard, w, why = FALSE_ROWS[row.key]
             injs, spec = body.rsplit(" (", 1)
             spec = "(" + spec
-            args = ", ".join("CVal.%s %s" % (p, lit(h, p)) for p, h in zip(row.params, w))
             out.append("/-- `%s`: %s -/" % (row.ins, why))
             out.append("theorem %s_partial : Partial2 %s %s %s f_%s := by\n  unfold f_%s\n  c03_tac\n" % (nm, injs, guard, spec, nm, nm))
             out.append("theorem %s_full_false : ¬ Full2 %s f_%s := by\n  intro h\n  have h := h %s %s []\n  revert h\n  decide\n" % (
@@ -117,8 +136,12 @@ def main():
         else:
             out.append("theorem %s_ok : Full%d %s f_%s := by\n  unfold f_%s\n  c03_tac\n" % (nm, ar, body, nm, nm))
             n_ok += 1
-    out.append("end WaVerif.C03.Rows")
-    open(os.path.join(V, "lean/WaVerif/Props/C03Rows.lean"), "w").write("\n".join(out) + "\n")
+    for g in GROUPS:
+        outs[g].append("end WaVerif.C03.Rows")
+        open(os.path.join(V, "lean/WaVerif/Props/C03Rows%s.lean" % g), "w").write("\n".join(outs[g]) + "\n")
+    old = os.path.join(V, "lean/WaVerif/Props/C03Rows.lean")
+    if os.path.exists(old):
+        os.remove(old)
     json.dump(wit, open(os.path.join(V, "lean/WaVerif/Props/C03Witnesses.json"), "w"), indent=1, sort_keys=True)
     print(n_ok, "full rows,", n_false, "partial+false rows")
 
